@@ -403,6 +403,7 @@ impl Checker {
 
         // --- launches of this step (L)
         self.check_launches(world, step, &mut out);
+        self.check_time_limits(world, action, step, &mut out);
 
         // --- C07: worker loss
         self.check_worker_loss(world, obs, step, &mut out);
@@ -630,6 +631,55 @@ impl Checker {
             }
         }
         let _ = out;
+    }
+
+    /// C01, last clause: a task that runs longer than its time limit is stopped. The worker
+    /// starts the timer when it first polls the handling future of the execution; when the
+    /// simulated clock has passed (first poll + limit of the submit) the timer must have fired
+    /// (the future is woken), and once the future was polled after that moment the execution must
+    /// have been told to stop (or be over).
+    fn check_time_limits(&mut self, world: &World, action: &Action, step: u64, out: &mut Vec<Finding>) {
+        let now = world.now_ms.get();
+        let launches = world.launches.borrow();
+        for l in launches.iter() {
+            if l.ended.is_some() || l.launch_failed || l.stop_seen.is_some() {
+                continue;
+            }
+            let (Some(tl), Some(p)) = (l.time_limit_ms, l.first_poll_ms) else {
+                continue;
+            };
+            if now < p + tl {
+                continue;
+            }
+            // still executing, not told to stop, end not yet decided by the simulator
+            let live = world.live_execs(l.worker).iter().any(|(t, i, stop, end_sent)| {
+                *t == l.task && *i == l.instance && stop.is_none() && !*end_sent
+            });
+            if !live {
+                continue;
+            }
+            let name = World::task_fut_name(l.worker, l.task, l.instance);
+            let woken = world
+                .exec
+                .find_by_name(&name)
+                .map(|id| world.exec.is_woken(id));
+            let polled_now = matches!(action, Action::PollTask { w, job, task, instance }
+                if *w == l.worker && (*job, *task) == l.task && *instance == l.instance);
+            self.probes.hit("executions_at_time_limit");
+            if woken == Some(false) {
+                fnd(
+                    out,
+                    "C01",
+                    "ran-past-time-limit",
+                    if polled_now { "not-stopped-when-polled" } else { "timer-not-fired" },
+                    format!(
+                        "execution of {:?} (instance {}) on worker {} started its timer at {} ms, the task's time limit is {} ms, now is {} ms: it was neither told to stop nor is its timer due",
+                        l.task, l.instance, l.worker, p, tl, now
+                    ),
+                    step,
+                );
+            }
+        }
     }
 
     fn check_launches(&mut self, world: &mut World, step: u64, out: &mut Vec<Finding>) {
@@ -1970,6 +2020,26 @@ impl Checker {
                         format!("{k:?} asks for {n} nodes and got {ws:?}"),
                         step,
                     );
+                }
+                let mn_min_time_ms = rqv.requests()[0].min_time().as_millis() as u64;
+                for w in ws {
+                    if let Some(wsim) = world.workers.get(&w.as_num())
+                        && let Some(limit) = wsim.time_limit_ms
+                        && mn_min_time_ms > 0
+                        && now_ms + mn_min_time_ms > wsim.start_ms + limit
+                    {
+                        fnd(
+                            out,
+                            "C05",
+                            "placed-without-enough-lifetime",
+                            "multi-node-member",
+                            format!(
+                                "multi-node task {k:?} needs {mn_min_time_ms} ms but its worker {w} ends in {} ms",
+                                (wsim.start_ms + limit).saturating_sub(now_ms)
+                            ),
+                            step,
+                        );
+                    }
                 }
                 let groups: BTreeSet<&str> = ws
                     .iter()
